@@ -31,7 +31,7 @@ def run_native(fn, args):
         warnings.simplefilter('ignore')
         with np.errstate(all='ignore'):
             try:
-                r = fn(**args)
+                r = fn(**dict((k, v) for k, v in args.items() if not k.startswith('_')))
                 if isinstance(r, types.GeneratorType):
                     r = ('generator', list(r))
                 return ('return', r)
